@@ -171,6 +171,7 @@ def run(model: Model, rep: Report) -> None:
             pass
     r5.check(ok, site(uv), uv.qualname, "xi >= 0 -> xi ; otherwise xi + 2**n_bits", why=why)
     _decipher_walk(model, rep)
+    _rc4(model, rep)
 
 
 def _constants(model: Model, rep: Report, spec: dict, fo: Folder) -> None:
@@ -289,3 +290,21 @@ def _decipher_walk(model: Model, rep: Report) -> None:
             st = loops[0].body[0]
             okd = isinstance(st, ast.Assign) and isinstance(st.value, ast.Call) and (dotted(st.value.func) or "") == "decipher_all" and isinstance(st.targets[0], ast.Subscript) and unparse(st.targets[0].value) == x
     r6.check(okd, site(f, di) if di is not None else site(f), f.qualname, "every value of a dictionary is walked and stored back under its key", why="dict branch changed")
+
+
+def _rc4(model: Model, rep: Report) -> None:
+    r7 = rep.rule("C10-R7", "NORMFORM", "RC4: key schedule and output generation as specified (256-entry permutation, indices mod 256, swap before the output byte); encrypt and decrypt are the same function", 3)
+    A = "pdfminer.arcfour.Arcfour"
+    init, proc = model.func(A + ".__init__"), model.func(A + ".process")
+
+    def np_(f) -> str:
+        return "".join(unparse(f.node).split()).replace("(", "").replace(")", "")
+
+    s1 = np_(init)
+    r7.check("s=[iforiinrange256]" in s1 and "j=0" in s1 and "klen=lenkey" in s1 and "foriinrange256:j=j+s[i]+key[i%klen]%256s[i],s[j]=s[j],s[i]" in s1 and "self.s=s" in s1 and "self.i,self.j=0,0" in s1, site(init), init.qualname, "KSA: S = identity; for i in 0..255: j = (j + S[i] + key[i mod len]) mod 256; swap S[i], S[j]; i = j = 0", why="key schedule changed")
+    s2 = np_(proc)
+    r7.check("i=i+1%256j=j+s[i]%256s[i],s[j]=s[j],s[i]k=s[s[i]+s[j]%256]r+=bytesc^k," in s2 and "self.i,self.j=i,j" in s2 and s2.endswith("returnr"), site(proc), proc.qualname, "PRGA: i += 1; j += S[i]; swap; output byte = data xor S[(S[i] + S[j]) mod 256]; the stream position is kept", why="output generation changed")
+    ci = model.cls(A)
+    al = [st for st in ci.node.body if isinstance(st, ast.Assign) and isinstance(st.value, ast.Name) and st.value.id == "process"]
+    names = sorted(t.id for st in al for t in st.targets if isinstance(t, ast.Name))
+    r7.check(names == ["decrypt", "encrypt"], f"{ci.module.relpath}:{ci.node.lineno}:Arcfour", A, "encrypt = decrypt = process", why=f"aliases {names}")
